@@ -6,8 +6,8 @@ import (
 
 // Witness is the canonical F08 history: P passes ref.func of its own function to B's PRIVATE table through a
 // parameter, then P and its compiled module are closed, dropped and collected; B's call_indirect uses the record.
-func Witness(id int, cached bool) History {
-	return History{ID: id, Cached: cached, Cut: -1, Witness: "F08",
+func Witness(id int, cached, nochurn bool) History {
+	return History{ID: id, Cached: cached, Cut: -1, Witness: "F08", NoChurn: nochurn,
 		Mods: []ModSpec{
 			{NFun: 1, NPriv: 1, Size: 4},
 			{ImpS: [][2]int{{0, 0}}, NFun: 1, Size: 4},
@@ -209,41 +209,105 @@ func generate(seed uint64, n int) {
 		for k := 1 + r.Intn(3); k > 0; k-- {
 			use()
 		}
-		// every third history: the F08 pattern around a random store-by-parameter import (whether it is really
-		// dangerous depends on who else keeps the passer alive: the model decides)
-		if r.Intn(3) == 0 {
-			var ps []int
-			for m := range mods {
-				if len(mods[m].ImpS) > 0 {
-					ps = append(ps, m)
-				}
+		// scenarios aimed at one keep-alive mechanism each; whether the final use is safe is decided by the model
+		closeAll := func(m int) {
+			add("closemod", m)
+			up[m] = false
+			if r.Intn(4) != 0 {
+				add("closecm", m)
+				compiled[m] = false
 			}
-			if len(ps) > 0 {
-				m := ps[r.Intn(len(ps))]
-				q := r.Intn(len(mods[m].ImpS))
-				tgt := mods[m].ImpS[q]
-				k := r.Intn(4)
-				add("pass", m, pickRec(r, &mods[m]), q, k)
-				if r.Intn(2) == 0 {
+			if r.Intn(5) != 0 {
+				add("dropmod", m)
+			}
+			if r.Intn(4) != 0 {
+				add("dropcm", m)
+			}
+			add("gc")
+		}
+		for sc := 1 + r.Intn(2); sc > 0; sc-- {
+			switch r.Intn(4) {
+			case 0: // F08 pattern around a store-by-parameter import
+				var ps []int
+				for m := range mods {
+					if len(mods[m].ImpS) > 0 {
+						ps = append(ps, m)
+					}
+				}
+				if len(ps) > 0 {
+					m := ps[r.Intn(len(ps))]
+					q := r.Intn(len(mods[m].ImpS))
+					tgt := mods[m].ImpS[q]
+					k := r.Intn(4)
+					add("pass", m, pickRec(r, &mods[m]), q, k)
+					if r.Intn(2) == 0 {
+						add("ind", tgt[0], tgt[1], k)
+					}
+					closeAll(m)
+					if r.Intn(3) == 0 {
+						use()
+					}
 					add("ind", tgt[0], tgt[1], k)
 				}
-				add("closemod", m)
-				up[m] = false
-				if r.Intn(4) != 0 {
-					add("closecm", m)
-					compiled[m] = false
+			case 1: // an imported function outlives its closed, collected definer
+				// prefer definers that no shared table pins (then only the importer's module engine keeps them alive)
+				pinned := map[int]bool{}
+				for m := range mods {
+					for _, t := range mods[m].ImpT {
+						pinned[t[0]] = true
+					}
 				}
-				if r.Intn(4) != 0 {
-					add("dropmod", m)
+				var ps, best [][2]int
+				for m := range mods {
+					for q, f := range mods[m].ImpF {
+						ps = append(ps, [2]int{m, q})
+						if !pinned[f[0]] {
+							best = append(best, [2]int{m, q})
+						}
+					}
 				}
-				if r.Intn(4) != 0 {
-					add("dropcm", m)
+				if len(best) > 0 && r.Intn(4) != 0 {
+					ps = best
 				}
+				if len(ps) > 0 {
+					pq := ps[r.Intn(len(ps))]
+					m, q := pq[0], pq[1]
+					add("call", m, q)
+					closeAll(mods[m].ImpF[q][0])
+					add("call", m, q)
+					if mods[m].nHold() > 0 {
+						t, k := r.Intn(mods[m].nHold()), r.Intn(4)
+						add("set", m, t, k, q)
+						add("ind", m, t, k)
+					}
+				}
+			case 2: // a function put into a shared table outlives its closed, collected instance
+				var ps []int
+				for m := range mods {
+					if len(mods[m].ImpT) > 0 {
+						ps = append(ps, m)
+					}
+				}
+				if len(ps) > 0 {
+					m := ps[r.Intn(len(ps))]
+					q := r.Intn(len(mods[m].ImpT))
+					src := mods[m].ImpT[q]
+					k := r.Intn(4)
+					add("set", m, q, k, mods[m].nImpRec()+r.Intn(mods[m].NFun))
+					add("ind", src[0], src[1], k)
+					closeAll(m)
+					add("ind", src[0], src[1], k)
+				}
+			default: // a compiled module is closed and dropped while its instance lives on
+				m := r.Intn(nm)
+				add("closecm", m)
+				compiled[m] = false
+				add("dropcm", m)
 				add("gc")
-				if r.Intn(3) == 0 {
-					use()
+				add("call", m, mods[m].nImpRec()+r.Intn(mods[m].NFun))
+				if mods[m].nHold() > 0 {
+					add("ind", m, r.Intn(mods[m].nHold()), r.Intn(4))
 				}
-				add("ind", tgt[0], tgt[1], k)
 			}
 		}
 		steps := 4 + r.Intn(6)
@@ -285,6 +349,9 @@ func generate(seed uint64, n int) {
 		}
 		out.Emit(h)
 	}
-	out.Emit(Witness(n, true))
-	out.Emit(Witness(n+1, false))
+	out.Emit(Witness(n, true, false))
+	out.Emit(Witness(n+1, false, false))
+	out.Emit(Witness(n+2, true, true))
+	out.Emit(History{ID: n + 3, Cached: true, Cut: -1, Witness: "F08b", Probe: "global"})
+	out.Emit(History{ID: n + 4, Cached: true, Cut: -1, Witness: "F08b", Probe: "global", NoChurn: true})
 }
